@@ -240,4 +240,12 @@ theorem old_close_counterexample :
     p.callable "h" = none ∧
     (runEvs {} [.reg "h" "c1", .reg "h" "c2", .close "c1"]).callable "h" = some "c2" := by decide
 
+/-- **a full node that cannot be called back is not registered**: a host `connect` arriving over a transport without
+a reverse channel (plain HTTP) is refused and leaves the pool exactly as it was — registry, store and all (poolbin op
+`hosthttp`; seeded change C15-r5 panicked there with the pool's lock held) -/
+theorem host_without_connection_refused (p : Pool) (src id : String) (req : Pool.ConnectReq) (now : Int)
+    (h : req.isFull = true) : p.connect none src id req now = (p, .error .noService) := by
+  unfold Pool.connect
+  simp [h]
+
 end Vipnode.C09
